@@ -1,6 +1,8 @@
 from contracts.copying import CONTRACTS as _C
 from contracts.surveys import CellCopyStub, EMCopy
-CONTRACTS = list(_C) + [CellCopyStub, EMCopy]
+from contracts.copy_wf import CopiesKeepFilesValid
+from contracts.alignment import MaskedCopyNative
+CONTRACTS = list(_C) + [CellCopyStub, EMCopy, CopiesKeepFilesValid, MaskedCopyNative]
 
 MANIFEST = {
     "category": "proof",
